@@ -2,6 +2,7 @@ import Netconan.Model.IpText
 import Netconan.Pinned.Patterns
 import Netconan.Generated.Patterns
 import Netconan.Proofs.RegexAlpha
+import Netconan.Proofs.Ipv4Pinned
 /-!
 # C06 – Address substitution in text  (tier T0 + alphabet analysis)
 
@@ -10,9 +11,20 @@ Proved for every line: `anonymize_ip_addr` changes nothing but spans that the ad
 itself (mask, preserved address, unparsable) or the canonical text of the image – and, by the
 verified alphabet analysis evaluated by the kernel on the pinned *and* on the regenerated pattern
 trees, an IPv4 span consists of decimal digits and dots only and no span of either family contains
-white space.  Not yet proved (validated exhaustively on short strings and on structured tokens
-against an independent scanner, see DESIGN.md): that the spans are exactly the valid standalone
-address tokens.
+white space.
+
+**Completeness and exactness** (`ipv4_stage_is_the_token_scanner`, `ipv6_stage_is_the_pattern_scanner`):
+the stage is a left-to-right scan in which a span is replaced *iff* a word of the pattern's core
+language stands alone at that position (previous character outside `[a-zA-Z0-9.]` resp. `[a-zA-Z0-9:]`
+or none; next character outside it, end of line or final newline).  For IPv4 the core language is
+characterised arithmetically (`lang_core4_iff`): four parts separated by dots, each a non-empty string
+of decimal digits of value ≤ 255 with any number of leading zeros – so octets above 255, wrong
+numbers of parts and tokens glued to letters, digits or dots are left alone, and every valid standalone
+token is replaced *as a whole* (`ipv4_replaced_span_is_the_whole_token`).  Proved from two general
+theorems about the engine (`Proofs/RegexLang.lean`): soundness and **completeness of backtracking**
+with respect to the declarative reading `Lang` of a look-around-free pattern.  For IPv6 the core
+language is the declarative reading of the pattern itself; which of several standalone words the
+engine picks when one is a prefix of another (`::ffff:1` in `::ffff:1.2.3.4`) is the recorded finding.
 -/
 namespace Netconan.Props.C06
 open Netconan Netconan.IpText Netconan.Regex
@@ -77,6 +89,121 @@ theorem ipv4_spans_are_digits_and_dots (c : IpCfg) (hp : c.pattern = Generated.P
   have := (h3 sg hsg t rp hst).2 ch hch
   rw [hp] at this
   exact digitsAndDot_spec _ ipv4_alphabet_regenerated ch this
+
+open NoSurvival in
+/-- **The IPv4 stage is the token scanner** (pinned and regenerated pattern): reading the line left to
+right, a span is replaced only if it is a dotted quad of parts ≤ 255 (`lang_core4_iff`) standing alone,
+by `anonMatch` of it; a character is kept only if no such token stands alone at its position. -/
+theorem ipv4_stage_is_the_token_scanner (c : IpCfg) (undo : Bool)
+    (hp : c.pattern = Pinned.Patterns.ipv4 ∨ c.pattern = Generated.Patterns.ipv4)
+    (line out : List Char) (h : anonIpLine c undo line = .ok out) :
+    ∃ (enc : List (Nat × Nat)) (segs : List Seg), enc = Pinned.Patterns.cs0 ∧ line = srcs segs ∧ out = dsts segs ∧
+      ScanG (Stands enc core4) (fun left w rest => prevOK enc left = true ∧ Lang core4 w ∧ nextOK enc rest = true)
+        (anonMatch c undo) [] segs := by
+  rcases hp with hp | hp
+  · obtain ⟨segs, h1, h2, h3⟩ := ip_scan c undo _ core4 _ (hp.trans pinned_ipv4_shape) core4_plain core4_min
+      (tail_opt _ _) line out h
+    exact ⟨_, segs, rfl, h1, h2, h3⟩
+  · obtain ⟨segs, h1, h2, h3⟩ := ip_scan c undo _ core4 _ (hp.trans generated_ipv4_shape) core4_plain core4_min
+      (tail_opt _ _) line out h
+    exact ⟨_, segs, rfl, h1, h2, h3⟩
+
+open NoSurvival in
+/-- what stands alone for IPv4, spelled out: no letter, digit or dot before; four decimal parts of
+value ≤ 255 (leading zeros allowed) separated by dots; no letter, digit or dot after -/
+theorem ipv4_stands_iff (left right : List Char) :
+    Stands Pinned.Patterns.cs0 core4 left right ↔
+      prevOK Pinned.Patterns.cs0 left = true ∧ ∃ p1 p2 p3 p4 rest, Part p1 ∧ Part p2 ∧ Part p3 ∧ Part p4 ∧
+        right = (p1 ++ '.' :: (p2 ++ '.' :: (p3 ++ '.' :: p4))) ++ rest ∧ nextOK Pinned.Patterns.cs0 rest = true := by
+  unfold Stands
+  constructor
+  · rintro ⟨hp, w, rest, hl, hr, hn⟩
+    obtain ⟨p1, p2, p3, p4, h1, h2, h3, h4, rfl⟩ := (lang_core4_iff w).mp hl
+    exact ⟨hp, p1, p2, p3, p4, rest, h1, h2, h3, h4, hr, hn⟩
+  · rintro ⟨hp, p1, p2, p3, p4, rest, h1, h2, h3, h4, hr, hn⟩
+    exact ⟨hp, _, rest, (lang_core4_iff _).mpr ⟨p1, p2, p3, p4, h1, h2, h3, h4, rfl⟩, hr, hn⟩
+
+open NoSurvival in
+theorem not_delim_of_digit_or_dot (c : Char) (h : isDig c = true ∨ c = '.') (rest : List Char) :
+    nextOK Pinned.Patterns.cs0 (c :: rest) = false := by
+  have h10 : ('\n' : Char).toNat = 10 := by decide
+  have h46 : ('.' : Char).toNat = 46 := by decide
+  have hc : c.toNat = 46 ∨ (48 ≤ c.toNat ∧ c.toNat ≤ 57) := by
+    rcases h with h | rfl
+    · right; simpa [isDig] using h
+    · left; exact h46
+  have hne : (c == '\n') = false := by
+    cases hcn : (c == '\n') with
+    | false => rfl
+    | true => have : c = '\n' := by simpa using hcn
+              rw [this, h10] at hc; omega
+  have hin : inRanges Pinned.Patterns.cs0 c = false := by
+    cases hi : inRanges Pinned.Patterns.cs0 c with
+    | false => rfl
+    | true =>
+      simp [inRanges, Pinned.Patterns.cs0] at hi
+      omega
+  simp [nextOK, hne, hin]
+
+open NoSurvival in
+/-- **A valid standalone IPv4 token is replaced as a whole**: two words of the core language that both
+stand alone at the same position are equal – a replaced span cannot be a proper part of the token,
+nor reach beyond it. -/
+theorem ipv4_replaced_span_is_the_whole_token (t w rest1 rest2 : List Char)
+    (ht : Lang core4 t) (hw : Lang core4 w) (he : t ++ rest1 = w ++ rest2)
+    (h1 : nextOK Pinned.Patterns.cs0 rest1 = true) (h2 : nextOK Pinned.Patterns.cs0 rest2 = true) : t = w := by
+  have key : ∀ (a b ra rb : List Char), Lang core4 b → a ++ ra = b ++ rb → nextOK Pinned.Patterns.cs0 ra = true →
+      a.length < b.length → False := by
+    intro a b ra rb hb he hn hlt
+    -- the character after `a` is a character of `b`
+    have hra : ra = (b.drop a.length) ++ rb := by
+      have := congrArg (List.drop a.length) he
+      rw [List.drop_left' rfl, List.drop_append_of_le_length (by omega)] at this
+      exact this
+    cases hd : b.drop a.length with
+    | nil =>
+      have : (b.drop a.length).length = b.length - a.length := by simp
+      rw [hd] at this; simp at this; omega
+    | cons c rest =>
+      have hmem : c ∈ b := List.mem_of_mem_drop (by rw [hd]; simp)
+      have := not_delim_of_digit_or_dot c (core4_chars b hb c hmem) (rest ++ rb)
+      rw [hra, hd] at hn
+      simp only [List.cons_append] at hn
+      rw [this] at hn
+      exact absurd hn (by simp)
+  have hlen : t.length = w.length := by
+    rcases Nat.lt_trichotomy t.length w.length with h | h | h
+    · exact absurd (key t w rest1 rest2 hw he h1 h) id
+    · exact h
+    · exact absurd (key w t rest2 rest1 ht he.symm h2 h) id
+  have := congrArg (List.take t.length) he
+  rw [List.take_left' rfl, hlen, List.take_left' rfl] at this
+  exact this
+
+open NoSurvival in
+/-- **The IPv6 stage is the pattern scanner**: the same statement with the declarative reading
+`Lang` of the IPv6 core pattern itself (pinned and regenerated). -/
+theorem ipv6_stage_is_the_pattern_scanner (c : IpCfg) (undo : Bool)
+    (hp : c.pattern = Pinned.Patterns.ipv6 ∨ c.pattern = Generated.Patterns.ipv6)
+    (line out : List Char) (h : anonIpLine c undo line = .ok out) :
+    ∃ (enc : List (Nat × Nat)) (core : Re) (segs : List Seg), enc = encOf Pinned.Patterns.ipv6 ∧
+      core = coreOf c.pattern ∧ line = srcs segs ∧ out = dsts segs ∧
+      ScanG (Stands enc core) (fun left w rest => prevOK enc left = true ∧ Lang core w ∧ nextOK enc rest = true)
+        (anonMatch c undo) [] segs := by
+  rcases hp with hp | hp
+  · obtain ⟨segs, h1, h2, h3⟩ := ip_scan c undo _ _ _ (hp.trans pinned_ipv6_shape) pinned_core6_plain pinned_core6_min
+      (tail_la _) line out h
+    exact ⟨_, _, segs, rfl, by rw [hp], h1, h2, h3⟩
+  · obtain ⟨segs, h1, h2, h3⟩ := ip_scan c undo _ _ _ (hp.trans generated_ipv6_shape) generated_core6_plain generated_core6_min
+      (tail_la _) line out h
+    exact ⟨_, _, segs, rfl, by rw [hp], h1, h2, h3⟩
+
+open NoSurvival in
+/-- non-vacuity (kernel-evaluated): `010.1.2.255` is a word of the IPv4 core language, `1.2.3.256` is not a part -/
+example : Part ['0', '1', '0'] ∧ Part ['2', '5', '5'] ∧ ¬ Part ['2', '5', '6'] := by
+  refine ⟨⟨by simp, by decide, by decide⟩, ⟨by simp, by decide, by decide⟩, ?_⟩
+  rintro ⟨_, _, h⟩
+  exact absurd h (by decide)
 
 /-- leading zeros are dropped, not read as octal; printing is canonical (kernel-evaluated tests) -/
 example : parseV4 "1.2.3.040".toList = .ok 0x01020328 := by decide +kernel
